@@ -60,3 +60,27 @@ def attempt(f):
 
 def dyadic(rng, lo=-64, hi=64, denom=8):
     return Fraction(rng.randint(lo * denom, hi * denom), denom)
+
+
+LAYOUTS = [None, None, "F", "strided", "readonly", "revview"]
+
+
+def relayout(arr, mode):
+    """the same values in another memory layout / with other flags (what a caller may legitimately pass)"""
+    if mode is None:
+        return arr
+    if mode == "F":
+        return np.asfortranarray(arr)
+    if mode == "strided":          # every second element of a larger buffer along each axis
+        big = np.zeros(tuple(2 * s for s in arr.shape), dtype=arr.dtype)
+        view = big[tuple(slice(0, None, 2) for _ in arr.shape)]
+        view[...] = arr
+        return view
+    if mode == "readonly":
+        out = arr.copy()
+        out.setflags(write=False)
+        return out
+    if mode == "revview":          # negative strides
+        rev = tuple(slice(None, None, -1) for _ in arr.shape)
+        return np.ascontiguousarray(arr[rev])[rev]
+    raise ValueError(mode)
